@@ -335,6 +335,13 @@ def run(ctx, rep):
     # (store_fast / store_skip park it) has to be a value, not a view of the slot it was read from - the sibling may write that slot
     from props import C08 as _c08
     _c08.no_view_stored(F, rep, ctx, rule="C15.parked-by-value")
+    # ... and wait in registers that were reserved for them (C07's walk of the store_fast emissions)
+    from props import C07 as _c07
+    from core import Report as _Report7
+    tmp7 = _Report7("C07", rep.tier)
+    _c07.fresh_cell_for_new_names_only(F, tmp7)
+    _c07.expression_values_wait_in_registers(F, rep, rule="C15.parked")
+    _c07.written_registers_are_reserved(F, rep, rule="C15.parked")
 
 
 def fold_keeps_operands(F, rep, rule="C15.fold-keeps-operands"):
